@@ -53,6 +53,18 @@ CHECKS = {
         text="For the supported core (arithmetic, comparison, boolean, rounding, cast, CASE/COALESCE/IS NULL/IN, sum/mean/min/max/count/first/last/var/std) the real range propagation is run on ~1000 (quick) typed argument boxes and expression trees and the solver searches each whole box (up to 2^192 points, NULL flags included) for a value outside the propagated range; integer kernels are additionally checked against the hull of their corner values for symbolic boxes. Types and expression shapes are a grid (stated); points are symbolic.",
         note="Trusted: dispatch / NULL model of Expr::value (lib/exprsem.py) - each counterexample is replayed with the real Expr::value and contains; aggregate definitions restated from function.rs. Outside: text/date/regex functions, transcendental kernels (uninterpreted), inputs on which a kernel panics (C18), integers beyond 2^53 meeting floats (known finding).",
         design="3 C06"),
+    "C07": dict(
+        level="translation_validation", engine="S (SymRel) + M lemma + SQLite replay",
+        technique="SMT (linear/non-linear integer-real arithmetic): the Relation the real compiler emits for each SQL program is executed symbolically over every database of <= K rows per table; declared column types and size intervals are checked at every node; Map::size LIMIT/OFFSET arithmetic from MIR for all sizes; SQLite replay",
+        text="Per program (fixed list + seeded random programs of the supported fragment) and per node of the emitted relation, the solver decides whether any conforming database of <= 2 (thorough: 3) rows per table produces a cell outside the declared type, a NULL in a non-optional column, or a row count outside the declared size. Programs are enumerated, databases are symbolic. The LIMIT/OFFSET size arithmetic is additionally decided for every input size, limit and offset from the MIR of Map::size.",
+        note="Trusted: relational semantics of lib/symrel.py (SQL bag semantics, reals for floats); every reported violation is reproduced by SQLite on the SQL the library renders. Known findings: outer-join size with a unique side, NULL aggregates over empty input.",
+        design="3 C07, 2.5"),
+    "C14": dict(
+        level="translation_validation", engine="S (SymRel) + M kernels + SQLite replay",
+        technique="SMT: symbolic execution of the emitted Relation over all constraint-respecting databases of <= K rows looking for duplicate values in columns flagged Unique/PrimaryKey; injectivity of the kernels of functions listed as bijections over all 64-bit inputs; SQLite replay",
+        text="For every node of every compiled program whose schema flags a column unique, the solver searches all databases (<= 2/3 rows per table, base constraints assumed) for two output rows with the same non-NULL value; the functions through which the flag is propagated (is_bijection) are checked for injectivity on their whole 64-bit domain when their kernel is translatable.",
+        note="Trusted: lib/symrel.py semantics (SQLite-confirmed reports only); MIR translation. Known findings: CAST AS INTEGER / CAST AS FLOAT are not one-to-one.",
+        design="3 C14"),
 }
 
 NOT_APPLICABLE = {
@@ -65,10 +77,8 @@ NOT_YET = {
     "C03": "not built yet",
     "C04": "not built yet",
     "C05": "not built yet",
-    "C07": "not built yet",
     "C08": "not built yet (stretch goal; two SQL front ends)",
     "C09": "not built yet",
-    "C14": "not built yet",
 }
 
 
@@ -105,6 +115,7 @@ def main():
         engines=[
             dict(name="M", path="lib/mir.py", serves_properties=["C12", "C18", "C14", "C15", "C06", "C10", "C11", "C03", "C04"], kind_free_text="nightly MIR dump of /repo -> SMT-LIB for loop-free bodies; cvc5/z3 portfolio"),
             dict(name="T", path="lib/rules.py", serves_properties=["C02", "C13"], kind_free_text="rewriting-rule tree automaton: rule lists extracted from the real code, labelings decided by SMT"),
+            dict(name="S", path="lib/symrel.py", serves_properties=["C07", "C14", "C05", "C01", "C09", "C04"], kind_free_text="SymRel: bounded symbolic evaluation of the Relation IR emitted by the real compiler over a symbolic database; SQLite replay"),
             dict(name="K", path="kani/", serves_properties=["C11", "C18"], kind_free_text="Kani proof harnesses over the real Intervals<B> (CBMC)"),
             dict(name="driver", path="driver/", serves_properties=["*"], kind_free_text="Rust binary linked against /repo's working tree: runs the real type/expr/relation/rewriting code concretely on JSON jobs (grids, replays, IR dumps)"),
         ],
